@@ -14,7 +14,9 @@ MANIFEST = {
          "request in submission order, status 0 only if fully accepted, write_queue_size exact, try_write never overtakes, "
          "shutdown(2) only with an empty queue and EPIPE afterwards, descriptor sent once, close cancels. The model is tied "
          "to the working tree by running the real library on real sockets with every write syscall scripted and diffing "
-         "every line with the model, plus independent monitors on the peer's bytes and the callback log.",
+         "every line with the model (debug and NDEBUG builds of the library), plus independent monitors on the peer's "
+         "bytes and the callback log (order, exactly-once, status, write_queue_size, EOF after last byte, EPIPE after "
+         "shutdown, try_write refusal, descriptor count, liveness after the OS accepts everything).",
  "note": "Trusted: Lean kernel; the interposition harness (write/writev/sendmsg/shutdown defined in the harness, partial "
          "writes performed for real so the peer sees them); clang/ASan. Not modelled: UV_HANDLE_BLOCKING_WRITES (tty only), "
          "read side, a closing send_handle, ENOMEM in uv_write2 (C16), macOS. POLLOUT is assumed deliverable whenever armed "
